@@ -1,0 +1,177 @@
+//go:build verif
+
+// Contracts for the deductive verification kept in /verif (govc). This file is
+// compiled only with the "verif" build tag and contains no code: every
+// contract lives in a comment block and is read by the verifier together with
+// the real source of this package.
+
+package dependency
+
+/*@
+
+// ---------- C06: architecture and version restrictions (Debian semantics) ----------
+
+// a wildcard has at least one 'any' component (the atomic 'all' is not a wildcard)
+pure func wild(a Arch) bool { a.CPU != "all" && (a.ABI == "any" || a.OS == "any" || a.CPU == "any") }
+pure func isAll(a Arch) bool { a.ABI == "all" && a.OS == "all" && a.CPU == "all" }
+// architectures denoted by Debian names: the atomic 'all', or a triple none of whose components is 'all'
+pure func validArch(a Arch) bool { isAll(a) || (a.ABI != "all" && a.OS != "all" && a.CPU != "all") }
+pure func comp(w string, c string) bool { w == "any" || w == c }
+
+// the matching relation of the property statement
+pure func archMatches(a Arch, b Arch) bool {
+  (isAll(a) || isAll(b)) ? (isAll(a) && isAll(b)) :
+  (wild(a) && wild(b)) ? false :
+  wild(b) ? (comp(b.ABI, a.ABI) && comp(b.OS, a.OS) && comp(b.CPU, a.CPU)) :
+  wild(a) ? (comp(a.ABI, b.ABI) && comp(a.OS, b.OS) && comp(a.CPU, b.CPU)) :
+  (a.ABI == b.ABI && a.OS == b.OS && a.CPU == b.CPU) }
+
+lemma archMatches_sym(a Arch, b Arch)
+  ensures archMatches(a, b) == archMatches(b, a)
+
+func (*Arch).IsWildcard
+  requires arch != nil
+  ensures result == wild(*arch)
+
+func (*Arch).Is
+  requires arch != nil && other != nil
+  requires [deb] validArch(*arch) && validArch(*other)
+  decreases wild(*arch) ? 1 : 0
+  ensures [deb] result == archMatches(*arch, *other)
+
+// "some entry of the list, at index k or later, matches a" (recursive form of the existential)
+pure func anyM(as []Arch, a Arch, k int) bool reads heap
+  decreases len(as) - k
+  { k < 0 || k >= len(as) ? false : (archMatches(as[k], a) || anyM(as, a, k+1)) }
+
+// a bracketed list admits an architecture iff (some entry matches) differs from (the list is negated);
+// an empty list admits everything
+pure func admits(set *ArchSet, a Arch) bool reads heap
+  { len(set.Architectures) == 0 || (anyM(set.Architectures, a, 0) != set.Not) }
+
+func (*ArchSet).Matches
+  requires set != nil && other != nil
+  requires [deb] validArch(*other) && (forall k int :: 0 <= k && k < len(set.Architectures) ==> validArch(set.Architectures[k]))
+  ensures [deb] result == old(admits(set, *other))
+  loop 1:
+    invariant -1 <= rangeindex && rangeindex < len(set.Architectures)
+    invariant not == set.Not
+    // stated over the heap as at entry: the loop only writes its own copy `el`
+    invariant [deb] pre(anyM(set.Architectures, *other, 0)) == pre(anyM(set.Architectures, *other, rangeindex + 1))
+    decreases len(set.Architectures) - rangeindex
+
+// --- selecting possibilities for an architecture
+
+// index of the first non-substvar alternative at or after k whose list admits a, or -1
+pure func firstAdm(ps []Possibility, a Arch, k int) int reads heap
+  decreases len(ps) - k
+  { k < 0 || k >= len(ps) ? -1 :
+    (!ps[k].Substvar && admits(ps[k].Architectures, a) ? k : firstAdm(ps, a, k+1)) }
+
+// number of relations among the first r that have such an alternative
+pure func cnt(rs []Relation, a Arch, r int) int reads heap
+  decreases r
+  { r <= 0 || r > len(rs) ? 0 : cnt(rs, a, r-1) + (firstAdm(rs[r-1].Possibilities, a, 0) >= 0 ? 1 : 0) }
+
+auto lemma cnt_nonneg(rs []Relation, a Arch, r int) reads heap
+  ensures 0 <= cnt(rs, a, r)
+  decreases max(r, 0)
+  trigger cnt(rs, a, r)
+  { if 0 < r && r <= len(rs) { cnt_nonneg(rs, a, r-1) } }
+
+lemma cnt_mono(rs []Relation, a Arch, r int, i int) reads heap
+  requires 0 <= r && r <= i && i <= len(rs)
+  ensures cnt(rs, a, r) <= cnt(rs, a, i)
+  decreases i - r
+  { if r < i { cnt_mono(rs, a, r, i-1) } }
+
+lemma cnt_lt(rs []Relation, a Arch, r int, i int) reads heap
+  requires 0 <= r && r < i && i <= len(rs) && firstAdm(rs[r].Possibilities, a, 0) >= 0
+  ensures cnt(rs, a, r) < cnt(rs, a, i)
+  { cnt_mono(rs, a, r+1, i) }
+
+// what the parser establishes: every non-substvar alternative has an architecture list of valid architectures
+pure func depOK(rs []Relation) bool reads heap {
+  forall r int, k int :: 0 <= r && r < len(rs) && 0 <= k && k < len(rs[r].Possibilities) && !rs[r].Possibilities[k].Substvar ==>
+    rs[r].Possibilities[k].Architectures != nil &&
+    (forall j int :: 0 <= j && j < len(rs[r].Possibilities[k].Architectures.Architectures) ==>
+      validArch(rs[r].Possibilities[k].Architectures.Architectures[j])) }
+
+func (*Dependency).GetPossibilities
+  requires dep != nil
+  requires depOK(dep.Relations)
+  requires [deb] validArch(arch)
+  ensures [deb] len(result) == cnt(dep.Relations, arch, len(dep.Relations))
+  ensures [deb] forall r int :: 0 <= r && r < len(dep.Relations) && firstAdm(dep.Relations[r].Possibilities, arch, 0) >= 0 ==>
+    result[cnt(dep.Relations, arch, r)] == dep.Relations[r].Possibilities[firstAdm(dep.Relations[r].Possibilities, arch, 0)]
+  loop 1:
+    invariant -1 <= rangeindex#1 && rangeindex#1 < len(dep.Relations)
+    invariant [deb] len(possies) == cnt(dep.Relations, arch, rangeindex#1 + 1)
+    invariant [deb] forall r int :: 0 <= r && r <= rangeindex#1 && firstAdm(dep.Relations[r].Possibilities, arch, 0) >= 0 ==>
+      possies[cnt(dep.Relations, arch, r)] == dep.Relations[r].Possibilities[firstAdm(dep.Relations[r].Possibilities, arch, 0)]
+      split r == rangeindex#1
+      by { forall r int { cnt_lt(dep.Relations, arch, r, rangeindex#1) } }
+    decreases len(dep.Relations) - rangeindex#1
+  loop 2:
+    invariant -1 <= rangeindex#2 && rangeindex#2 < len(relation.Possibilities)
+    invariant possies == entry(possies)
+    invariant 0 <= rangeindex#1 && rangeindex#1 < len(dep.Relations) && relation == dep.Relations[rangeindex#1]
+    invariant [deb] firstAdm(relation.Possibilities, arch, 0) == firstAdm(relation.Possibilities, arch, rangeindex#2 + 1)
+    decreases len(relation.Possibilities) - rangeindex#2
+
+// all non-substvar alternatives, in order: counted and located by a position function over (relation, alternative)
+pure func nsub(ps []Possibility, k int) int reads heap
+  decreases k
+  { k <= 0 || k > len(ps) ? 0 : nsub(ps, k-1) + (ps[k-1].Substvar ? 0 : 1) }
+
+pure func nsubAll(rs []Relation, r int) int reads heap
+  decreases r
+  { r <= 0 || r > len(rs) ? 0 : nsubAll(rs, r-1) + nsub(rs[r-1].Possibilities, len(rs[r-1].Possibilities)) }
+
+auto lemma nsub_nonneg(ps []Possibility, k int) reads heap
+  ensures 0 <= nsub(ps, k)
+  decreases max(k, 0)
+  trigger nsub(ps, k)
+  { if 0 < k && k <= len(ps) { nsub_nonneg(ps, k-1) } }
+
+func (*Dependency).GetAllPossibilities
+  requires dep != nil
+  ensures len(result) == nsubAll(dep.Relations, len(dep.Relations))
+  ensures forall k int :: 0 <= k && k < len(result) ==> !result[k].Substvar
+  loop 1:
+    invariant -1 <= rangeindex#1 && rangeindex#1 < len(dep.Relations)
+    invariant len(possies) == nsubAll(dep.Relations, rangeindex#1 + 1)
+    invariant forall k int :: 0 <= k && k < len(possies) ==> !possies[k].Substvar
+    decreases len(dep.Relations) - rangeindex#1
+  loop 2:
+    invariant -1 <= rangeindex#2 && rangeindex#2 < len(relation.Possibilities)
+    invariant 0 <= rangeindex#1 && rangeindex#1 < len(dep.Relations) && relation == dep.Relations[rangeindex#1]
+    invariant len(possies) == nsubAll(dep.Relations, rangeindex#1) + nsub(relation.Possibilities, rangeindex#2 + 1)
+    invariant forall k int :: 0 <= k && k < len(possies) ==> !possies[k].Substvar
+    decreases len(relation.Possibilities) - rangeindex#2
+
+func (*Dependency).GetSubstvars
+  requires dep != nil
+  ensures forall k int :: 0 <= k && k < len(result) ==> result[k].Substvar
+  loop 1:
+    invariant -1 <= rangeindex#1 && rangeindex#1 < len(dep.Relations)
+    invariant forall k int :: 0 <= k && k < len(possies) ==> possies[k].Substvar
+    decreases len(dep.Relations) - rangeindex#1
+  loop 2:
+    invariant -1 <= rangeindex#2 && rangeindex#2 < len(relation.Possibilities)
+    invariant forall k int :: 0 <= k && k < len(possies) ==> possies[k].Substvar
+    decreases len(relation.Possibilities) - rangeindex#2
+
+// a version constraint '(op N)' is satisfied by V exactly when V compared with N is <0, <=0, =0, >=0, >0 for
+// <<, <=, =, >=, >> respectively, and never when N is unparsable or op is unknown
+pure func parsedVersion(t string) version.Version { mk(version.Version, vepoch(t), vupstream(t), vrevision(t)) }
+pure func opHolds(op string, q int) bool {
+  (op == ">=" && q >= 0) || (op == "<=" && q <= 0) || (op == ">>" && q > 0) || (op == "<<" && q < 0) || (op == "=" && q == 0) }
+
+func VersionRelation.SatisfiedBy
+  requires nonul(ver.Version) && nonul(ver.Revision)
+  ensures [deb] result == (wellformed(trimspace(v.Number)) && opHolds(v.Operator, vspec(ver, parsedVersion(trimspace(v.Number)))))
+
+property C06: (*Dependency).GetAllPossibilities, (*Dependency).GetSubstvars, VersionRelation.SatisfiedBy[deb], lemma cnt_mono, lemma cnt_lt, (*Dependency).GetPossibilities[deb], lemma archMatches_sym, (*Arch).IsWildcard, (*Arch).Is[deb], (*ArchSet).Matches[deb]
+
+@*/
